@@ -35,6 +35,7 @@ var Tags = []string{
 	"{$x ?: 1}", "{$a ? 1 : 2}", "{[1, 2]}", "{['a': 1]}", "{[:]}", "{f(1, 2)}", "{$a.b?.c[0]?[1].2}",
 	`{'s' + "t"}`, "{not $x and -1 < 2}", "{1 2}", "{$x +}", "{08}", "{0x1F}", "{1.5e3}",
 	"hello", " <b>\n  x ", "}", "{", "{{", "{/", "{\\", "{/foo}", "{foo $x}", "é", "\xff",
+	`{'a\'b\\c\n\u00e9'}`, `{'\u12'}`, `{'\q'}`, `{"x\"y"}`, `{['k\u1': 1]}`,
 }
 
 // Truncated returns the tag cut before its closing delimiter ("" if the tag
@@ -206,6 +207,53 @@ func TagBodies() []Input {
 		"-", "not", "(", ")", "(1", "[", "[1", "[1,", "['a':", "f(", "f(1", "$a[", "$a?[1", "$a ?: ", "1 ?", "1 ? 2", "1 ? 2 :",
 		"'abc", "\"abc", "'a\\", "0x", "1.", "1e", "@", "@param", "@param x: ", "#", "}", "{", "/}", "/*", "//", "\xff\xfe", "é", "$é"} {
 		add(s)
+	}
+	return out
+}
+
+// ---------------------------------------------------------------------------
+// string-literal hazards: every escape, truncated and malformed escapes, in
+// print tags, attribute values, map keys, commands, and as expressions
+
+// StringBodies are the insides of string literals (between the quotes).
+func StringBodies(n int, seed int64) []string {
+	out := []string{"", "a", `\\`, `\'`, `\"`, `\n`, `\r`, `\t`, `\b`, `\f`, `\u00e9`, `\u1234`, `\uABCD`, `\uabcd`, `a\\b\'c\nd\u0041e`,
+		`\`, `\u`, `\u1`, `\u12`, `\u123`, `\uZZZZ`, `\u12G4`, `\u 123`, `\q`, `\0`, `\x41`, `\U00000041`, `\\u12`, `\\\`, `\\\u12`,
+		`price: \u20A`, `price: \u20`, `price: \u2`, `price: \u`, `x\`, `\u12é`, `é\u12`, `\ué`, "\\u12\xff", "\xff\\", `\u00`, `\u0000`, `\uD83D`,
+		`\uD83D\uDE00`, `"`, `a"b`, `\n\`, `{`, `}`, `{$x}`, `*/`, `/*`, `//`, "a\nb", "\t"}
+	r := rand.New(rand.NewSource(seed*48271 + 29))
+	alpha := []string{`\`, "u", "0", "1", "A", "f", "G", "'", `"`, "n", "q", "é", " ", "x", "\xff", "{", "}"}
+	for i := 0; i < n; i++ {
+		var sb strings.Builder
+		for k := r.Intn(8); k >= 0; k-- {
+			sb.WriteString(alpha[r.Intn(len(alpha))])
+		}
+		out = append(out, sb.String())
+	}
+	return out
+}
+
+// StringHazards places every string body, single- and double-quoted, in
+// expressions, print tags, commands, map keys and quoted attribute values.
+func StringHazards(n int, seed int64) []Input {
+	var out []Input
+	goq := func(s string) string { // the text as the value of a double-quoted attribute
+		return strings.NewReplacer(`\`, `\\`, `"`, `\"`).Replace(s)
+	}
+	for _, b := range StringBodies(n, seed) {
+		for _, q := range []string{"'", `"`} {
+			lit := q + b + q
+			out = append(out, ExprInput("strings/expr", lit), ExprInput("strings/expr", lit+" + 1"), ExprInput("strings/expr", "["+lit+": 1]"),
+				ExprInput("strings/expr", "['a': 1, "+lit+": 2]"), ExprInput("strings/expr", "f("+lit+")"), ExprInput("strings/expr", q+b))
+			for _, t := range []string{"{" + lit + "}", "{print " + lit + "}", "{$x + " + lit + "}", "{[" + lit + ": 1]}", "{['a': 1, " + lit + ": 2]}",
+				"{[" + lit + "]}", "{f(" + lit + ")}", "{if " + lit + "}a{/if}", "{switch $x}{case " + lit + "}a{/switch}", "{let $v: " + lit + " /}",
+				"{call .u}{param p: " + lit + " /}{/call}", `{call .u data="` + goq(lit) + `" /}`, `{call .u data="` + lit + `" /}`,
+				`{call .u}{param key="p" value="` + goq(lit) + `" /}{/call}`, "{css " + lit + ", cls}", `{msg desc="` + b + `"}m{/msg}`,
+				`{msg desc="` + goq(b) + `"}m{/msg}`, "{$x|truncate:" + lit + "}", "{" + q + b} {
+				out = append(out, FileInput("strings/file", hdr+t+"\n{/template}\n"))
+			}
+		}
+		out = append(out, Input{Entry: "globals", Text: []byte("a = '" + b + "'\n"), Family: "strings/globals"})
 	}
 	return out
 }
